@@ -1,6 +1,6 @@
 //! Field-layer monitors: C15 (big integers), C01 (prime fields), C02 (towers), C11 (square roots),
-#![allow(deprecated)]
 //! and the field part of C19.
+#![allow(deprecated)]
 use monitor::*;
 use std::time::Instant;
 
